@@ -35,7 +35,12 @@ for d in sorted(glob.glob(V + "/seeded/*")):
     if len(need) > 260:
         need = need[:257] + "..."
     note = m.get("strengthened", "")
-    out.append("| %s | %s%s | %s | %s |" % (os.path.basename(d), "yes" if cr["caught"] else "**no**",
+    verdict = "yes" if cr["caught"] else "**no**"
+    if not cr["caught"] and m.get("caught_by_other"):
+        verdict = "by " + ", ".join("%s (%s)" % (k, ", ".join(v)) for k, v in sorted(m["caught_by_other"].items()))
+    if not cr["caught"] and m.get("note"):
+        verdict += " - " + m["note"]
+    out.append("| %s | %s%s | %s | %s |" % (os.path.basename(d), verdict,
                                             (" (after strengthening: %s)" % note) if note else "", ", ".join(cr["rules"]) or "-", need))
 text = "\n".join(out) + "\n\n"
 s = open(V + "/DESIGN.md").read()
